@@ -100,6 +100,8 @@ struct Case<'a> {
 
 fn run_case(rep: &mut Report, r: &mut Rng, c: &Case) {
     let n = (c.cuts.len() + 1) as u8;
+    // the group and its unfragmented twin run on parsers obtained the same way
+    let _pin = mon::pin_ctor(r.below(2));
     let mut p = Parser::new();
     let mut log: Log = Vec::new();
     let pr = prior(r, &mut p, &mut log, c.id, n);
@@ -240,6 +242,7 @@ fn conversions(rep: &mut Report, r: &mut Rng) {
     let l2 = nmea_ref::mk(2, 2, id, &payload[cut..], 0);
     let log: Log = vec![(l1.clone(), false), (l2.clone(), false)];
     for (which, line_idx) in [("incomplete", 0usize), ("complete", 1usize)] {
+        let _pin = mon::pin_ctor(r.below(2));
         let mut pa = Parser::new();
         let mut pb = Parser::new();
         let mut pc = Parser::new();
